@@ -589,6 +589,102 @@ theorem assign_comm {p q : List Seg} (hd : Diverge p q) :
         | error e => rfl
         | ok c3 => simp [putBack_putBack]
 
+/-! ### a write at a diverging path does not make another write fail -/
+
+theorem store_ok_after_store {o o1 o2 : Val} {s t : Seg} {v w : Val}
+    (h1 : storeSeg o s v = .ok o1) (h2 : storeSeg o t w = .ok o2) : ∃ r, storeSeg o1 t w = .ok r := by
+  cases o with
+  | obj decl fs =>
+    cases s with
+    | item n => simp [storeSeg] at h1
+    | attr n =>
+      cases t with
+      | item m => simp [storeSeg] at h2
+      | attr m =>
+        simp only [storeSeg] at h1 h2
+        split at h1
+        · cases h1
+        · split at h2
+          · cases h2
+          · rename_i hc2
+            cases h1
+            exact ⟨_, by simp only [storeSeg, hc2]; rfl⟩
+  | dict fs =>
+    cases s with
+    | attr n => simp [storeSeg] at h1
+    | item n =>
+      cases t with
+      | attr m => simp [storeSeg] at h2
+      | item m =>
+        simp only [storeSeg] at h1
+        cases h1
+        exact ⟨_, by simp only [storeSeg]; rfl⟩
+  | int n => cases s <;> simp [storeSeg] at h1
+  | str n => cases s <;> simp [storeSeg] at h1
+  | lst n => cases s <;> simp [storeSeg] at h1
+
+theorem store_ok_after_putBack {o o2 c c1 : Val} {s t : Seg} {w : Val}
+    (hs : loadSeg o s = .ok c) (h2 : storeSeg o t w = .ok o2) : ∃ r, storeSeg (putBack o s c1) t w = .ok r := by
+  cases o with
+  | obj decl fs =>
+    cases s with
+    | item n => simp [loadSeg] at hs
+    | attr n =>
+      cases t with
+      | item m => simp [storeSeg] at h2
+      | attr m =>
+        simp only [storeSeg] at h2
+        split at h2
+        · cases h2
+        · rename_i hc2
+          exact ⟨_, by simp only [putBack, storeSeg, hc2]; rfl⟩
+  | dict fs =>
+    cases s with
+    | attr n => simp [loadSeg] at hs
+    | item n =>
+      cases t with
+      | attr m => simp [storeSeg] at h2
+      | item m => exact ⟨_, by simp only [putBack, storeSeg]; rfl⟩
+  | int n => cases s <;> simp [loadSeg] at hs
+  | str n => cases s <;> simp [loadSeg] at hs
+  | lst n => cases s <;> simp [loadSeg] at hs
+
+theorem assign_ok_after_diverge {p q : List Seg} (hd : Diverge p q) :
+    ∀ (o o1 o2 v w : Val), assign o p v = .ok o1 → assign o q w = .ok o2 → ∃ r, assign o1 q w = .ok r := by
+  induction hd with
+  | @head s t p q hne =>
+    intro o o1 o2 v w h1 h2
+    cases p with
+    | nil =>
+      have h1' : storeSeg o s v = .ok o1 := h1
+      cases q with
+      | nil => exact store_ok_after_store h1' h2
+      | cons t' r' =>
+        obtain ⟨d, d2, ht, hm, _⟩ := modifyLast_deep_inv h2
+        have hl1 : loadSeg o1 t = .ok d := by rw [load_store_ne h1' hne]; exact ht
+        exact ⟨_, modifyLast_deep_ok hl1 hm⟩
+    | cons s' r =>
+      obtain ⟨c, c1, hs, hm1, rfl⟩ := modifyLast_deep_inv h1
+      cases q with
+      | nil => exact store_ok_after_putBack hs h2
+      | cons t' r' =>
+        obtain ⟨d, d2, ht, hm2, _⟩ := modifyLast_deep_inv h2
+        have hl1 : loadSeg (putBack o s c1) t = .ok d := by rw [load_putBack_ne _ _ hne]; exact ht
+        exact ⟨_, modifyLast_deep_ok hl1 hm2⟩
+  | @cons s p q hd ih =>
+    intro o o1 o2 v w h1 h2
+    cases p with
+    | nil => cases hd
+    | cons s' r =>
+      cases q with
+      | nil => cases hd.symm
+      | cons t' r' =>
+        obtain ⟨c, c1, hs, hm1, rfl⟩ := modifyLast_deep_inv h1
+        obtain ⟨c', c2, hs', hm2, _⟩ := modifyLast_deep_inv h2
+        rw [hs] at hs'; cases hs'
+        obtain ⟨r, hr⟩ := ih c c1 c2 v w hm1 hm2
+        exact ⟨_, modifyLast_deep_ok (load_putBack_same hs) hr⟩
+
 /-! ### success of a modification = the prefix exists and the parent accepts -/
 
 theorem modifyLast_of_prefix {f : Val → Seg → Except Err Val} {last : Seg} {parent parent' : Val}
@@ -631,5 +727,615 @@ theorem lookup_dropLast_of_err {p : List Seg} {o : Val} {e : Err}
       | ok c =>
         rw [lookup_cons_ok hs] at h
         simp [modifyLast, hs, ih h]
+
+/-! ## Runs -/
+
+theorem run_cons (c : Cfg) (w : World) (op : Op) (ops : List Op) :
+    run c w (op :: ops) =
+      ((run c (step c w op).1 ops).1, (step c w op).2 :: (run c (step c w op).1 ops).2) := rfl
+
+/-! ## Tokenizer: soundness (`render ∘ tokenize = id`) -/
+
+theorem takeWord_append : ∀ (s w r : List Char), takeWord s = (w, r) → w ++ r = s
+  | [], w, r, h => by simp [takeWord] at h; obtain ⟨rfl, rfl⟩ := h; rfl
+  | c :: cs, w, r, h => by
+    simp only [takeWord] at h
+    split at h
+    · cases hw : takeWord cs with
+      | mk w' r' =>
+        rw [hw] at h
+        simp at h
+        obtain ⟨rfl, rfl⟩ := h
+        simp [takeWord_append cs w' r' hw]
+    · simp at h; obtain ⟨rfl, rfl⟩ := h; rfl
+
+theorem takeWord_word : ∀ (s w r : List Char), takeWord s = (w, r) → ∀ c ∈ w, isWordChar c = true
+  | [], w, r, h => by simp [takeWord] at h; obtain ⟨rfl, rfl⟩ := h; simp
+  | c :: cs, w, r, h => by
+    simp only [takeWord] at h
+    split at h
+    · rename_i hc
+      cases hw : takeWord cs with
+      | mk w' r' =>
+        rw [hw] at h
+        simp at h
+        obtain ⟨rfl, rfl⟩ := h
+        intro x hx
+        rcases List.mem_cons.1 hx with rfl | hx
+        · exact hc
+        · exact takeWord_word cs w' r' hw x hx
+    · simp at h; obtain ⟨rfl, rfl⟩ := h; simp
+
+/-- the rest after a greedy word does not start with a word character -/
+theorem takeWord_rest : ∀ (s w r : List Char), takeWord s = (w, r) →
+    r = [] ∨ ∃ c r', r = c :: r' ∧ isWordChar c = false
+  | [], w, r, h => by simp [takeWord] at h; obtain ⟨rfl, rfl⟩ := h; exact Or.inl rfl
+  | c :: cs, w, r, h => by
+    simp only [takeWord] at h
+    split at h
+    · cases hw : takeWord cs with
+      | mk w' r' =>
+        rw [hw] at h
+        simp at h
+        obtain ⟨rfl, rfl⟩ := h
+        exact takeWord_rest cs w' r' hw
+    · rename_i hc
+      simp at h; obtain ⟨rfl, rfl⟩ := h
+      exact Or.inr ⟨c, cs, rfl, by simpa using hc⟩
+
+theorem scanKey_sound (q : Char) : ∀ (s raw r : List Char), scanKey q s = some (raw, r) →
+    raw ++ q :: ']' :: r = s
+  | [], raw, r, h => by simp [scanKey] at h
+  | [_], raw, r, h => by simp [scanKey] at h
+  | c :: d :: rest, raw, r, h => by
+    simp only [scanKey] at h
+    split at h
+    · rename_i hc
+      split at h
+      · rename_i hd
+        simp at h; obtain ⟨rfl, rfl⟩ := h
+        simp at hc hd; simp [hc, hd]
+      · cases h
+    · split at h
+      · split at h
+        · cases h
+        · cases hk : scanKey q rest with
+          | none => simp [hk] at h
+          | some pr =>
+            obtain ⟨raw', r'⟩ := pr
+            simp [hk] at h
+            obtain ⟨rfl, rfl⟩ := h
+            have := scanKey_sound q rest raw' r' hk
+            simp [this]
+      · cases hk : scanKey q (d :: rest) with
+        | none => simp [hk] at h
+        | some pr =>
+          obtain ⟨raw', r'⟩ := pr
+          simp [hk] at h
+          obtain ⟨rfl, rfl⟩ := h
+          have := scanKey_sound q (d :: rest) raw' r' hk
+          simp [this]
+
+theorem lexLookup_sound {ad : Bool} {s : List Char} {b : Body} {r : List Char}
+    (h : lexLookup ad s = some (b, r)) : renderBody b ++ r = s := by
+  cases s with
+  | nil => simp [lexLookup] at h
+  | cons c rest =>
+    simp only [lexLookup] at h
+    split at h
+    · rename_i hc
+      simp at hc; subst hc
+      split at h
+      · cases h
+      · cases rest with
+        | nil => simp at h
+        | cons q rest' =>
+          simp only [] at h
+          split at h
+          · rename_i hq
+            simp at hq; subst hq
+            cases hk : scanKey '"' rest' with
+            | none => simp [hk] at h
+            | some pr =>
+              obtain ⟨raw, r'⟩ := pr
+              simp [hk] at h
+              obtain ⟨rfl, rfl⟩ := h
+              have := scanKey_sound _ _ _ _ hk
+              simp [renderBody, Quote.char, this]
+          · split at h
+            · rename_i hq
+              simp at hq; subst hq
+              cases hk : scanKey '\'' rest' with
+              | none => simp [hk] at h
+              | some pr =>
+                obtain ⟨raw, r'⟩ := pr
+                simp [hk] at h
+                obtain ⟨rfl, rfl⟩ := h
+                have := scanKey_sound _ _ _ _ hk
+                simp [renderBody, Quote.char, this]
+            · cases h
+    · cases hw : takeWord (c :: rest) with
+      | mk w r' =>
+        rw [hw] at h
+        cases w with
+        | nil => simp at h
+        | cons x w' =>
+          simp at h
+          obtain ⟨rfl, rfl⟩ := h
+          simpa [renderBody] using takeWord_append _ _ _ hw
+
+theorem lexTok_sound {first : Bool} {s : List Char} {t : Tok} {r : List Char}
+    (h : lexTok first s = some (t, r)) : renderTok t ++ r = s := by
+  cases s with
+  | nil => simp [lexTok] at h
+  | cons c rest =>
+    simp only [lexTok] at h
+    split at h
+    · rename_i hc
+      simp at hc; subst hc
+      split at h
+      · cases h
+      · cases hl : lexLookup true rest with
+        | none => simp [hl] at h
+        | some pr =>
+          obtain ⟨b, r'⟩ := pr
+          simp [hl] at h
+          obtain ⟨rfl, rfl⟩ := h
+          simp [renderTok, lexLookup_sound hl]
+    · cases hl : lexLookup false (c :: rest) with
+      | none => simp [hl] at h
+      | some pr =>
+        obtain ⟨b, r'⟩ := pr
+        simp [hl] at h
+        obtain ⟨rfl, rfl⟩ := h
+        simpa [renderTok] using lexLookup_sound hl
+
+theorem lexAll_sound : ∀ (n : Nat) (first : Bool) (s : List Char) (ts : List Tok),
+    lexAll n first s = some ts → renderToks ts = s
+  | 0, _, _, _, h => by simp [lexAll] at h
+  | n + 1, _, [], ts, h => by simp [lexAll] at h; subst h; rfl
+  | n + 1, first, c :: cs, ts, h => by
+    simp only [lexAll] at h
+    cases ht : lexTok first (c :: cs) with
+    | none => simp [ht] at h
+    | some pr =>
+      obtain ⟨t, r⟩ := pr
+      simp only [ht] at h
+      cases hr : lexAll n false r with
+      | none => simp [hr] at h
+      | some ts' =>
+        simp [hr] at h
+        subst h
+        simp only [renderToks, lexAll_sound n false r ts' hr]
+        exact lexTok_sound ht
+
+/-! ## Tokenizer: completeness (`tokenize ∘ render = id` on canonical tokens) -/
+
+/-- a `\w+` body: non-empty, word characters only -/
+def WordOk (cs : List Char) : Prop := cs ≠ [] ∧ ∀ c ∈ cs, isWordChar c = true
+
+/-- well-escaped text between the quotes `q`: plain characters other than `q` and the
+backslash, or a backslash followed by any character but a newline -/
+inductive RawOk (q : Char) : List Char → Prop
+  | nil : RawOk q []
+  | plain (c : Char) (r : List Char) : c ≠ q → c ≠ '\\' → RawOk q r → RawOk q (c :: r)
+  | esc (d : Char) (r : List Char) : d ≠ '\n' → RawOk q r → RawOk q ('\\' :: d :: r)
+
+def BodyOk : Body → Prop
+  | .word cs => WordOk cs
+  | .key q raw => RawOk q.char raw
+
+def Body.isWord : Body → Bool
+  | .word _ => true
+  | .key _ _ => false
+
+/-- Canonical token lists = exactly what the tokenizer can return. `first`: the token
+is at offset 0; `prevWord`: the previous token is a word (a dot-less word cannot follow
+it: the greedy `\w+` would have swallowed it). -/
+def CanonToks : Bool → Bool → List Tok → Prop
+  | _, _, [] => True
+  | first, prevWord, t :: ts =>
+    BodyOk t.body
+    ∧ (first = true → t.dot = false)
+    ∧ (t.body.isWord = false → t.dot = false)
+    ∧ (prevWord = true → t.dot = false → t.body.isWord = false)
+    ∧ CanonToks false t.body.isWord ts
+
+theorem takeWord_complete : ∀ (w rest : List Char), (∀ c ∈ w, isWordChar c = true) →
+    (rest = [] ∨ ∃ c r, rest = c :: r ∧ isWordChar c = false) → takeWord (w ++ rest) = (w, rest)
+  | [], rest, _, hr => by
+    rcases hr with rfl | ⟨c, r, rfl, hc⟩
+    · rfl
+    · simp [takeWord, hc]
+  | x :: w, rest, hw, hr => by
+    have hx : isWordChar x = true := hw x (by simp)
+    have ih := takeWord_complete w rest (fun c hc => hw c (by simp [hc])) hr
+    simp [takeWord, hx, ih]
+
+theorem quote_ne_backslash (q : Quote) : ('\\' == q.char) = false := by cases q <;> decide
+
+theorem scanKey_complete (q : Quote) {raw : List Char} (h : RawOk q.char raw) (rest : List Char) :
+    scanKey q.char (raw ++ q.char :: ']' :: rest) = some (raw, rest) := by
+  induction h with
+  | nil => simp [scanKey]
+  | plain c r hcq hcb _ ih =>
+    cases hr : r ++ q.char :: ']' :: rest with
+    | nil => simp at hr
+    | cons d rest' =>
+      have hcq' : (c == q.char) = false := by simpa using hcq
+      have hcb' : (c == '\\') = false := by simpa using hcb
+      rw [hr] at ih
+      simp [scanKey, hr, hcq', hcb', ih]
+  | esc d r hd _ ih =>
+    have hd' : (d == '\n') = false := by simpa using hd
+    simp [scanKey, quote_ne_backslash, hd', ih]
+
+/-- the rendering of what follows a word token never starts with a word character -/
+theorem renderToks_after_word {ts : List Tok} (h : CanonToks false true ts) :
+    renderToks ts = [] ∨ ∃ c r, renderToks ts = c :: r ∧ isWordChar c = false := by
+  cases ts with
+  | nil => exact Or.inl rfl
+  | cons t ts =>
+    right
+    obtain ⟨hb, _, hk, hw, _⟩ := h
+    cases hdot : t.dot with
+    | true => exact ⟨'.', renderBody t.body ++ renderToks ts, by simp [renderToks, renderTok, hdot], by decide⟩
+    | false =>
+      have hnw := hw rfl hdot
+      cases hbody : t.body with
+      | word cs => simp [hbody, Body.isWord] at hnw
+      | key q raw =>
+        exact ⟨'[', q.char :: (raw ++ q.char :: ']' :: renderToks ts),
+          by simp [renderToks, renderTok, hdot, hbody, renderBody], by decide⟩
+
+theorem lexLookup_word {w rest : List Char} (hw : WordOk w)
+    (hr : rest = [] ∨ ∃ c r, rest = c :: r ∧ isWordChar c = false) (ad : Bool) :
+    lexLookup ad (w ++ rest) = some (.word w, rest) := by
+  obtain ⟨hne, hall⟩ := hw
+  cases w with
+  | nil => exact absurd rfl hne
+  | cons x w' =>
+    have hx : isWordChar x = true := hall x (by simp)
+    have hxb : (x == '[') = false := by
+      cases hxe : (x == '[') with
+      | false => rfl
+      | true => simp at hxe; subst hxe; revert hx; decide
+    have ht := takeWord_complete (x :: w') rest hall hr
+    simp only [List.cons_append] at ht ⊢
+    simp [lexLookup, hxb, ht]
+
+theorem lexLookup_key (q : Quote) {raw : List Char} (h : RawOk q.char raw) (rest : List Char) :
+    lexLookup false (renderBody (.key q raw) ++ rest) = some (.key q raw, rest) := by
+  have := scanKey_complete q h rest
+  cases q <;> simp [renderBody, Quote.char, lexLookup] at this ⊢ <;> simp [this]
+
+theorem wordChar_ne_dot {x : Char} (hx : isWordChar x = true) : (x == '.') = false := by
+  cases hxe : (x == '.') with
+  | false => rfl
+  | true => simp at hxe; subst hxe; revert hx; decide
+
+theorem lexTok_complete {first prevWord : Bool} {t : Tok} {ts : List Tok}
+    (h : CanonToks first prevWord (t :: ts)) :
+    lexTok first (renderTok t ++ renderToks ts) = some (t, renderToks ts) := by
+  obtain ⟨hb, hf, hk, _, hrest⟩ := h
+  obtain ⟨dot, body⟩ := t
+  cases body with
+  | word cs =>
+    have hr := renderToks_after_word (ts := ts) (by simpa [Body.isWord] using hrest)
+    cases dot with
+    | true =>
+      have hfirst : first = false := by
+        cases first with
+        | false => rfl
+        | true => exact absurd (hf rfl) (by simp)
+      simp [renderTok, renderBody, lexTok, hfirst, lexLookup_word hb hr]
+    | false =>
+      obtain ⟨hne, hall⟩ := hb
+      cases cs with
+      | nil => exact absurd rfl hne
+      | cons x w' =>
+        have hx : isWordChar x = true := hall x (by simp)
+        have := lexLookup_word (w := x :: w') ⟨hne, hall⟩ hr false
+        simp only [List.cons_append] at this
+        simp [renderTok, renderBody, lexTok, wordChar_ne_dot hx, this]
+  | key q raw =>
+    have hdot : dot = false := hk rfl
+    subst hdot
+    have := lexLookup_key q hb (renderToks ts)
+    simp only [renderBody, List.cons_append] at this
+    have e : raw ++ [q.char, ']'] ++ renderToks ts = raw ++ q.char :: ']' :: renderToks ts := by simp
+    rw [e] at this
+    have hbr : ('[' == '.') = false := by decide
+    simp [renderTok, renderBody, lexTok, hbr, this]
+
+theorem renderTok_ne_nil {first prevWord : Bool} {t : Tok} {ts : List Tok}
+    (h : CanonToks first prevWord (t :: ts)) : 0 < (renderTok t).length := by
+  obtain ⟨hb, _⟩ := h
+  obtain ⟨dot, body⟩ := t
+  cases body with
+  | word cs =>
+    obtain ⟨hne, _⟩ := hb
+    cases cs with
+    | nil => exact absurd rfl hne
+    | cons x w => cases dot <;> simp [renderTok, renderBody]
+  | key q raw => cases dot <;> simp [renderTok, renderBody]
+
+theorem lexAll_complete : ∀ (ts : List Tok) (n : Nat) (first prevWord : Bool),
+    CanonToks first prevWord ts → (renderToks ts).length < n →
+    lexAll n first (renderToks ts) = some ts
+  | [], n, first, _, _, hn => by
+    cases n with
+    | zero => simp at hn
+    | succ n => simp [renderToks, lexAll]
+  | t :: ts, n, first, prevWord, h, hn => by
+    cases n with
+    | zero => simp at hn
+    | succ n =>
+      have hpos := renderTok_ne_nil h
+      have htok := lexTok_complete h
+      have hlen : (renderToks ts).length < n := by
+        simp only [renderToks, List.length_append] at hn; omega
+      have ih := lexAll_complete ts n false t.body.isWord h.2.2.2.2 hlen
+      cases hs : renderTok t ++ renderToks ts with
+      | nil =>
+        have : (renderTok t ++ renderToks ts).length = 0 := by rw [hs]; rfl
+        simp only [List.length_append] at this; omega
+      | cons c cs =>
+        simp only [renderToks, hs, lexAll]
+        rw [← hs, htok]
+        simp [ih]
+
+theorem tokenize_complete {ts : List Tok} (h : CanonToks true false ts) :
+    tokenize (renderToks ts) = some ts :=
+  lexAll_complete ts _ true false h (Nat.lt_succ_self _)
+
+theorem tokenize_sound {s : List Char} {ts : List Tok} (h : tokenize s = some ts) : renderToks ts = s :=
+  lexAll_sound _ _ _ _ h
+
+/-- the `isidentifier()` shortcut of `_attr_path` agrees with the tokenizer -/
+theorem tokenize_identifier {s : List Char} (h : isIdentifier s = true) :
+    tokenize s = some [⟨false, .word s⟩] := by
+  cases s with
+  | nil => simp [isIdentifier] at h
+  | cons c cs =>
+    simp only [isIdentifier, Bool.and_eq_true] at h
+    obtain ⟨hc, hcs⟩ := h
+    have hcw : isWordChar c = true := by
+      simp only [isWordChar, Char.isAlphanum, Bool.or_eq_true] at hc ⊢
+      rcases hc with hc | hc
+      · exact Or.inl (Or.inl hc)
+      · exact Or.inr hc
+    have hall : ∀ x ∈ c :: cs, isWordChar x = true := by
+      intro x hx
+      rcases List.mem_cons.1 hx with rfl | hx
+      · exact hcw
+      · exact (List.all_eq_true.1 hcs) x hx
+    have hcanon : CanonToks true false [⟨false, .word (c :: cs)⟩] :=
+      ⟨⟨by simp, hall⟩, fun _ => rfl, fun h => by simp [Body.isWord] at h, fun h => by simp at h, trivial⟩
+    have := tokenize_complete hcanon
+    simpa [renderToks, renderTok, renderBody] using this
+
+theorem parsePath_eq (s : List Char) :
+    parsePath s = match tokenize s with
+      | some ts => .ok ts
+      | none => .error .valueError := by
+  unfold parsePath
+  split
+  · rename_i h; rw [tokenize_identifier h]
+  · rfl
+
+/-! ## Segment lists ↔ canonical path strings -/
+
+theorem decode_encode : ∀ (k : List Char), decodeKey (encodeKey k) = some k
+  | [] => rfl
+  | c :: cs => by
+    have ih := decode_encode cs
+    by_cases hc : (c == '\\' || c == '"') = true
+    · simp only [encodeKey, hc, if_true, decodeKey]
+      have hd : (c == '\\' || c == '\'' || c == '"') = true := by
+        simp only [Bool.or_eq_true] at hc ⊢
+        rcases hc with hc | hc
+        · exact Or.inl (Or.inl hc)
+        · exact Or.inr hc
+      simp [hd, ih]
+    · have hc' : (c == '\\' || c == '"') = false := by simpa using hc
+      have hb : (c == '\\') = false := by
+        cases hcb : (c == '\\') with
+        | false => rfl
+        | true => simp [hcb] at hc'
+      simp only [encodeKey, hc']
+      cases he : encodeKey cs with
+      | nil =>
+        rw [he] at ih
+        simp [decodeKey] at ih
+        subst ih
+        simp [decodeKey, hb]
+      | cons d rest =>
+        rw [he] at ih
+        simp [decodeKey, hb, ih]
+
+theorem rawOk_encode : ∀ (k : List Char), RawOk '"' (encodeKey k)
+  | [] => .nil
+  | c :: cs => by
+    have ih := rawOk_encode cs
+    by_cases hc : (c == '\\' || c == '"') = true
+    · simp only [encodeKey, hc, if_true]
+      refine .esc c _ ?_ ih
+      simp only [Bool.or_eq_true, beq_iff_eq] at hc
+      rcases hc with rfl | rfl <;> decide
+    · have hc' : (c == '\\' || c == '"') = false := by simpa using hc
+      simp only [encodeKey, hc']
+      simp only [Bool.or_eq_false_iff, beq_eq_false_iff_ne] at hc'
+      exact .plain c _ hc'.2 hc'.1 ih
+
+/-- segment lists that have a path string: attribute names are `\w+` -/
+def CanonSegs : List Seg → Prop
+  | [] => True
+  | .attr n :: r => WordOk n.toList ∧ CanonSegs r
+  | .item _ :: r => CanonSegs r
+
+theorem canon_segsToks : ∀ (p : List Seg) (first prevWord : Bool), CanonSegs p →
+    (first = true → prevWord = false) → CanonToks first prevWord (segsToks first p)
+  | [], _, _, _, _ => trivial
+  | .attr n :: r, first, prevWord, h, hfp => by
+    refine ⟨h.1, ?_, ?_, ?_, canon_segsToks r false _ h.2 (fun h => by simp at h)⟩
+    · intro hf; simp [segTok, hf]
+    · intro hw; simp [segTok, Body.isWord] at hw
+    · intro hpw hdot
+      simp [segTok] at hdot
+      have := hfp hdot
+      rw [this] at hpw; cases hpw
+  | .item k :: r, first, prevWord, h, hfp => by
+    refine ⟨?_, fun _ => rfl, fun _ => rfl, fun _ _ => rfl, canon_segsToks r false _ h (fun h => by simp at h)⟩
+    exact rawOk_encode k.toList
+
+theorem toksSegs_segsToks : ∀ (p : List Seg) (first : Bool), toksSegs (segsToks first p) = some p
+  | [], _ => rfl
+  | .attr n :: r, first => by
+    simp [segsToks, toksSegs, segTok, Tok.seg, toksSegs_segsToks r false, String.ofList_toList]
+  | .item k :: r, first => by
+    simp [segsToks, toksSegs, segTok, Tok.seg, toksSegs_segsToks r false, decode_encode, String.ofList_toList]
+
+/-! ## Everything the tokenizer returns is canonical -/
+
+theorem scanKey_rawOk (q : Char) : ∀ (s raw r : List Char), scanKey q s = some (raw, r) → RawOk q raw
+  | [], raw, r, h => by simp [scanKey] at h
+  | [_], raw, r, h => by simp [scanKey] at h
+  | c :: d :: rest, raw, r, h => by
+    simp only [scanKey] at h
+    split at h
+    · split at h
+      · simp at h; obtain ⟨rfl, rfl⟩ := h; exact .nil
+      · cases h
+    · rename_i hcq
+      split at h
+      · rename_i hcb
+        split at h
+        · cases h
+        · rename_i hd
+          cases hk : scanKey q rest with
+          | none => simp [hk] at h
+          | some pr =>
+            obtain ⟨raw', r'⟩ := pr
+            simp [hk] at h
+            obtain ⟨rfl, rfl⟩ := h
+            simp at hcb; subst hcb
+            exact .esc d raw' (by simpa using hd) (scanKey_rawOk q rest raw' r' hk)
+      · rename_i hcb
+        cases hk : scanKey q (d :: rest) with
+        | none => simp [hk] at h
+        | some pr =>
+          obtain ⟨raw', r'⟩ := pr
+          simp [hk] at h
+          obtain ⟨rfl, rfl⟩ := h
+          exact .plain c raw' (by simpa using hcq) (by simpa using hcb) (scanKey_rawOk q (d :: rest) raw' r' hk)
+
+def NonWordStart (s : List Char) : Prop := s = [] ∨ ∃ c r, s = c :: r ∧ isWordChar c = false
+
+theorem lexLookup_ok {ad : Bool} {s : List Char} {b : Body} {r : List Char}
+    (h : lexLookup ad s = some (b, r)) :
+    BodyOk b ∧ (ad = true → b.isWord = true) ∧ (b.isWord = true → NonWordStart r) := by
+  cases s with
+  | nil => simp [lexLookup] at h
+  | cons c rest =>
+    simp only [lexLookup] at h
+    split at h
+    · split at h
+      · cases h
+      · rename_i had
+        cases rest with
+        | nil => simp at h
+        | cons q rest' =>
+          simp only [] at h
+          split at h
+          · cases hk : scanKey '"' rest' with
+            | none => simp [hk] at h
+            | some pr =>
+              obtain ⟨raw, r'⟩ := pr
+              simp [hk] at h
+              obtain ⟨rfl, rfl⟩ := h
+              exact ⟨scanKey_rawOk _ _ _ _ hk, fun h => by simp [h] at had, fun h => by simp [Body.isWord] at h⟩
+          · split at h
+            · cases hk : scanKey '\'' rest' with
+              | none => simp [hk] at h
+              | some pr =>
+                obtain ⟨raw, r'⟩ := pr
+                simp [hk] at h
+                obtain ⟨rfl, rfl⟩ := h
+                exact ⟨scanKey_rawOk _ _ _ _ hk, fun h => by simp [h] at had, fun h => by simp [Body.isWord] at h⟩
+            · cases h
+    · cases hw : takeWord (c :: rest) with
+      | mk w r' =>
+        rw [hw] at h
+        cases w with
+        | nil => simp at h
+        | cons x w' =>
+          simp at h
+          obtain ⟨rfl, rfl⟩ := h
+          exact ⟨⟨by simp, takeWord_word _ _ _ hw⟩, fun _ => rfl, fun _ => takeWord_rest _ _ _ hw⟩
+
+theorem lexAll_canon : ∀ (n : Nat) (first prevWord : Bool) (s : List Char) (ts : List Tok),
+    lexAll n first s = some ts → (prevWord = true → NonWordStart s) → CanonToks first prevWord ts
+  | 0, _, _, _, _, h, _ => by simp [lexAll] at h
+  | n + 1, _, _, [], ts, h, _ => by simp [lexAll] at h; subst h; trivial
+  | n + 1, first, prevWord, c :: cs, ts, h, hpw => by
+    simp only [lexAll] at h
+    cases ht : lexTok first (c :: cs) with
+    | none => simp [ht] at h
+    | some pr =>
+      obtain ⟨t, r⟩ := pr
+      simp only [ht] at h
+      cases hr : lexAll n false r with
+      | none => simp [hr] at h
+      | some ts' =>
+        simp [hr] at h
+        subst h
+        -- analyse the token
+        simp only [lexTok] at ht
+        split at ht
+        · rename_i hc
+          split at ht
+          · cases ht
+          · rename_i hfirst
+            cases hl : lexLookup true cs with
+            | none => simp [hl] at ht
+            | some pb =>
+              obtain ⟨b, r'⟩ := pb
+              simp [hl] at ht
+              obtain ⟨rfl, rfl⟩ := ht
+              obtain ⟨hb, hw, hrest⟩ := lexLookup_ok hl
+              refine ⟨hb, fun hf => by simp [hf] at hfirst, fun hnw => by simp [hw rfl] at hnw,
+                fun _ hd => by simp at hd, lexAll_canon n false _ r' ts' hr (fun hbw => hrest hbw)⟩
+        · rename_i hc
+          cases hl : lexLookup false (c :: cs) with
+          | none => simp [hl] at ht
+          | some pb =>
+            obtain ⟨b, r'⟩ := pb
+            simp [hl] at ht
+            obtain ⟨rfl, rfl⟩ := ht
+            obtain ⟨hb, _, hrest⟩ := lexLookup_ok hl
+            refine ⟨hb, fun _ => rfl, fun _ => rfl, ?_, lexAll_canon n false _ r' ts' hr (fun hbw => hrest hbw)⟩
+            intro hp _
+            -- the previous token was a word, so `c` is not a word character: the body cannot be a word
+            cases b with
+            | key q raw => rfl
+            | word w =>
+              exfalso
+              have hs := lexLookup_sound hl
+              simp only [renderBody] at hs
+              obtain ⟨hne, hall⟩ := hb
+              cases w with
+              | nil => exact hne rfl
+              | cons x w' =>
+                simp only [List.cons_append, List.cons.injEq] at hs
+                have hx : isWordChar x = true := hall x (by simp)
+                rcases hpw hp with hnil | ⟨c', r'', hcr, hcw⟩
+                · cases hnil
+                · simp only [List.cons.injEq] at hcr
+                  rw [← hcr.1, ← hs.1, hx] at hcw
+                  cases hcw
+
+theorem tokenize_canon {s : List Char} {ts : List Tok} (h : tokenize s = some ts) : CanonToks true false ts :=
+  lexAll_canon _ true false s ts h (fun h => by simp at h)
 
 end SpecVerif.C18
